@@ -617,7 +617,8 @@ class Gen:
         if not vs:
             return self.s_decl()
         v = r.choice(vs)
-        e = self.expr(v.ty, 2, need_present=v.never_nil)
+        # a plain `x = e` re-types x after e: keep e's type exactly x's (an alias of bool is not "boolean" for `if`)
+        e = self.expr(v.ty, 2, need_present=v.never_nil, exact=(v.ty[0] == "nat"))
         if self.res(v.ty) == STR:
             v.minlen = 0
         pre = "" if self.is_local(v) else "modify "
@@ -786,7 +787,7 @@ class Gen:
         v = r.choice(ms_)
         _, kt, vt = self.res(v.ty)
         c = r.choice(["set", "get", "len", "keys", "values", "contains", "replace", "pairs"])
-        if c == "set":
+        if c == "set" and not v.const:
             key = r.choice(v.keys) if v.keys and r.random() < 0.5 else self.lit(kt)
             self.emit("%s[%s] = %s" % (v.name, key, self.expr(vt, 1, need_present=True)))
         elif c == "get" and v.keys:
